@@ -762,8 +762,12 @@ fn type_sel(r: &mut Rng, depth: usize, wide: bool) -> String {
 fn intro_query(r: &mut Rng, types: &[&str], data: &[&str]) -> String {
     let mut parts: Vec<String> = vec![];
     let which = r.below(3); // 0 __schema, 1 __type, 2 both
-    if r.chance(1, 2) {
-        parts.push(r.pick(data).to_string());
+    // the two data selections must differ: a repeated response key is resolved once per occurrence
+    // (recorded finding of C04) while the response tree holds the merged key once, so the
+    // response-tree oracle of this stream does not apply to it
+    let first = if r.chance(1, 2) { Some(r.pick(data).to_string()) } else { None };
+    if let Some(f) = &first {
+        parts.push(f.clone());
     }
     if which != 1 {
         let mut s = String::from("__schema {");
@@ -784,7 +788,10 @@ fn intro_query(r: &mut Rng, types: &[&str], data: &[&str]) -> String {
         parts.push(s);
     }
     if r.chance(1, 3) {
-        parts.push(r.pick(data).to_string());
+        let second = r.pick(data).to_string();
+        if first.as_deref() != Some(second.as_str()) {
+            parts.push(second);
+        }
     }
     if which != 0 {
         let t = r.pick(types);
